@@ -58,6 +58,11 @@ def lambdas(unit, witness_path):
                     L.params = [c for c in A.kids(mth) if c.get("kind") == "ParmVarDecl"]
                     break
             L.label = "%s[%s]%s" % (L.macro, L.field, ("#%d" % k) if k else "")
+            # port callbacks only: (const char *msg, RtData &data); a lambda nested inside a callback (a local helper) is
+            # part of that callback's body, not a callback of its own
+            if L.params is None or len(L.params) != 2 or "RtData" not in (A.qtype(L.params[1]) or ""):
+                per_line[line] = k
+                continue
             out.append(L)
     return out
 
@@ -87,16 +92,54 @@ def query_if(L):
     if a is None:
         return None
     for x in A.walk(L.body):
-        if x.get("kind") == "IfStmt" and is_strcmp_args(A.kids(x)[0], "", a["id"]):
+        if x.get("kind") == "IfStmt" and (is_strcmp_args(A.kids(x)[0], "", a["id"]) or _true_iff_empty(A.kids(x)[0], a["id"])):
             return x
     return None
+
+
+def _true_iff_empty(cond, args_id):
+    """the condition, evaluated with the type string `args` = "" / "i" / "f" / "T", holds exactly for the empty one
+    (`!strcmp("", args)`, `strcmp(args, "") == 0`, `*args == '\\0'`, `!args[0]`, `strlen(args) == 0`, ...)"""
+    if not any(y.get("kind") == "DeclRefExpr" and (y.get("referencedDecl") or {}).get("id") == args_id for y in A.walk(cond)):
+        return False
+    BASE = 4096
+    res = []
+    for text in ("", "i", "f", "T", "s"):
+        def deref(addr, n, text=text):
+            k = addr - BASE
+            if 0 <= k <= len(text):
+                return ord(text[k]) if k < len(text) else 0
+            raise FD.Unknown("read outside the type string", n)
+
+        def sval(v, text=text):
+            return v if isinstance(v, str) else text[v - BASE:]
+
+        def call(name, vals, n):
+            if name == "strcmp":
+                a_, b_ = sval(vals[0]), sval(vals[1])
+                return (a_ > b_) - (a_ < b_)
+            if name == "strlen":
+                return len(sval(vals[0]))
+            raise FD.Unknown("call to %s" % name, n)
+
+        def hook(n, ev):
+            if n.get("kind") == "StringLiteral":
+                return A.string_literal(n)
+            if n.get("kind") == "ImplicitCastExpr" and n.get("castKind") == "ArrayToPointerDecay" and A.string_literal(A.kids(n)[0]) is not None:
+                return A.string_literal(A.kids(n)[0])
+            return NotImplemented
+        try:
+            res.append(bool(FD.Eval(env={args_id: BASE}, deref=deref, call=call, node_hook=hook, max_steps=200).ev(cond)))
+        except FD.Unknown:
+            return False
+    return res == [True, False, False, False, False]
 
 
 def set_branches(L, qif):
     """[(label, CompoundStmt)] of the non-query branches."""
     ks = A.kids(qif)
     if len(ks) < 3:
-        return []
+        return []        # (a guard-clause form - `if(query) { reply; return; }` followed by the set code - is not followed: no verdict)
     e = ks[2]
     out = []
     while e.get("kind") == "IfStmt":
